@@ -55,36 +55,106 @@ Definition sentA : lkey := [".."; "sentinel"; "dtD"; "dtD_Cam_det1_.._sentinel.y
 Definition sentB : lkey := [".."; "sentinel"; "dtD"; "dtD_Cam_det0_.._sentinel.yaml"].
 Definition st1 : state := mkState [] [] [] [(stage0, 1%N); (sentA, 3%N); (sentB, 4%N)].
 
-(* FINDING (code as it is, df0ecd0 included): ingest(copy) into a run that encodes ".." three times is ACCEPTED -- the written
-   location is inside the root, guard (3) holds -- but the record it leaves names a location OUTSIDE the root (guard (4)
-   fails), and pruning the dataset deletes the foreign file there *)
+(* REPAIRED by 5539e78.  Before it (step_v true false: df0ecd0 in, no check on record paths at use time): ingest(copy) into a
+   run that encodes ".." three times is accepted -- the written location is inside the root -- the record it leaves names a
+   location OUTSIDE the root, and pruning the dataset deleted the foreign file there *)
+Definition step_nofix : state -> op -> state * outcome := step_v true false.
 Definition nested_ingest : op := Ingest Copy [1%N] (fmt1 run3) ".yaml" stage0.
 Definition nested_put : op := Put 2 (fmt run3) ".yaml" 9.
 
 Lemma foreign_refuted_nested_escape_p :
-  let s1 := fst (step st1 nested_ingest) in
+  let s1 := fst (step_nofix st1 nested_ingest) in
     (exists p, fmt1 run3 = FOk p /\ checked true p = true)
-    /\ snd (step st1 nested_ingest) = Done
+    /\ snd (step_nofix st1 nested_ingest) = Done
     /\ target_inside nested_ingest = true
     /\ fget (fs s1) sentA = Some 3%N /\ inside sentA = false
     /\ recs_inside s1 = false
-    /\ fget (fs (fst (step s1 (Prune [1%N])))) sentA = None.
+    /\ fget (fs (fst (step_nofix s1 (Prune [1%N])))) sentA = None.
 Proof.
   cbv zeta. split.
   - exists "%25252E%25252E/sentinel/dtD/dtD_Cam_det1_%25252E%25252E_sentinel". split; vm_compute; reflexivity.
   - vm_compute. repeat split; reflexivity.
 Qed.
 
-(* the same through put: the formatter writes inside the root, the datastore then sizes the RE-READ path, finds the foreign
-   file there, records "../sentinel/..." and a later prune deletes the foreign file *)
 Lemma foreign_refuted_nested_escape_put_p :
-  let s1 := fst (step st1 nested_put) in
-    snd (step st1 nested_put) = Done
+  let s1 := fst (step_nofix st1 nested_put) in
+    snd (step_nofix st1 nested_put) = Done
     /\ target_inside nested_put = true /\ put_coherent nested_put = false
     /\ recs s1 = [(2%N, "../sentinel/dtD/dtD_Cam_det0_.._sentinel.yaml")]
     /\ fget (fs s1) sentB = Some 4%N /\ inside sentB = false
-    /\ fget (fs (fst (step s1 (Prune [2%N])))) sentB = None.
+    /\ fget (fs (fst (step_nofix s1 (Prune [2%N])))) sentB = None.
 Proof. vm_compute. repeat split; reflexivity. Qed.
+
+(* with 5539e78 (step): the ingest is still accepted and still leaves such a record, but prune is REFUSED (ValueError), the
+   foreign file keeps its content; residue: the dataset sits in the trash with its record and its artifact inside the root *)
+Lemma nested_escape_refused_now_p :
+  let s1 := fst (step st1 nested_ingest) in
+  let s2 := fst (step s1 (Prune [1%N])) in
+    snd (step st1 nested_ingest) = Done /\ recs_inside s1 = false
+    /\ snd (step s1 (Prune [1%N])) = Refused ValueErr
+    /\ fget (fs s2) sentA = Some 3%N
+    /\ recs s2 = recs s1 /\ live s2 = [] /\ trash s2 = [1%N]
+    /\ fget (fs s2) ["%2E%2E"; "sentinel"; "dtD"; "dtD_Cam_det1_%2E%2E_sentinel.yaml"] = Some 1%N.
+Proof. vm_compute. repeat split; reflexivity. Qed.
+
+(* ---- MAIN 2 at full strength: no state guard at all --------------------------------------------------------------------- *)
+(* conditions on the OPERATIONS only: put / ingest carry a formatter extension, a zip path is inside, a put's text does not
+   resolve to the root itself *)
+Definition op_ok (x : op) : bool := ext_ok x && zip_inside x && put_nonroot x.
+Definition all_ops_ok (h : list op) : bool := forallb op_ok h.
+
+Lemma step_outside_frame_full_p : forall s x l,
+  op_ok x = true -> inside l = false -> touches_env s x l = false ->
+  fget (fs (fst (step s x))) l = fget (fs s) l.
+Proof.
+  intros s x l Hok Hl Henv. unfold op_ok in Hok.
+  apply andb_true_iff in Hok. destruct Hok as [Hok Hnr]. apply andb_true_iff in Hok. destruct Hok as [He Hz].
+  assert (Other : put_coherent x = true ->
+                  fget (fs (fst (step s x))) l = fget (fs s) l).
+  { intro Hpc. destruct (target_inside_or_noop_p s x He Hz) as [Hti | Hno].
+    - apply step_outside_frame_p; assumption.
+    - rewrite Hno. reflexivity. }
+  destruct x as [id fr ext c0 | m ids fr ext src | ids a | ids rel | members z c0 | ids | | ids | ids | l' c' | rids];
+    try (apply Other; reflexivity).
+  destruct fr as [p| |]; try (apply Other; reflexivity).
+  simpl in He, Hnr. apply negb_true_iff in Hnr.
+  unfold step, step_v.
+  destruct (refuse_location true p) eqn:R; [reflexivity|].
+  destruct (held_any s [id]); [reflexivity|].
+  pose proof (refuse_false_checked p R) as Hc.
+  pose proof (writes_inside_root_p p ext He Hc) as Hti.
+  assert (HW : inside (write_loc p ext) = true).
+  { apply formatter_writes_inside_p; [exact He | | exact Hc].
+    intro E. rewrite E in Hnr. discriminate Hnr. }
+  cbv zeta. rewrite Hti.
+  destruct (fget (fset (fs s) (write_loc p ext) c0) (loc (join_slash (target_loc p ext)))); cbn [fst fs add_recs with_fs].
+  - apply fget_fset_other. apply inside_differ; assumption.
+  - rewrite fget_fdel_other by (apply inside_differ; assumption).
+    apply fget_fset_other. apply inside_differ; assumption.
+Qed.
+
+Lemma never_touch_foreign_full_p : forall h s l,
+  all_ops_ok h = true -> inside l = false -> untouched_by_env s h l = true ->
+  fget (fs (run s h)) l = fget (fs s) l.
+Proof.
+  induction h as [|x r IH]; intros s l G Hl U; [reflexivity|].
+  simpl in G, U. rewrite run_cons.
+  apply andb_true_iff in G. destruct G as [G1 G2].
+  apply andb_true_iff in U. destruct U as [U1 U2]. apply negb_true_iff in U1.
+  rewrite (IH _ l) by assumption. apply step_outside_frame_full_p; assumption.
+Qed.
+
+(* every removal (emptyTrash / prune / removeRuns), whatever the record table says: nothing outside the root changes *)
+Lemma removal_never_outside_p : forall s ids l, inside l = false ->
+  fget (fs (fst (step s EmptyTrash))) l = fget (fs s) l
+  /\ fget (fs (fst (step s (Prune ids)))) l = fget (fs s) l
+  /\ fget (fs (fst (step s (RemoveRun ids)))) l = fget (fs s) l.
+Proof.
+  intros s ids l Hl. repeat split.
+  - apply empty_trash_v_outside_frame; exact Hl.
+  - apply (empty_trash_v_outside_frame (do_trash s ids)); exact Hl.
+  - apply (empty_trash_v_outside_frame (do_trash s ids)); exact Hl.
+Qed.
 
 (* guard (5) fails on "a%2eb": the put is refused (FileNotFoundError) and leaves the formatter's file behind -- an orphan
    INSIDE the root, no record, nothing outside touched *)
@@ -112,8 +182,15 @@ Lemma hash_run_leaks_not_loses_p :
      /\ fget (fs s) ["a#b"; "dtD"; "dtD_Cam_det1_aHASHb.yaml"] = Some 1%N.
 Proof. vm_compute. repeat split; reflexivity. Qed.
 
+(* an absolute record path (direct ingest: a file the datastore does not own, wherever it lives) is never removed *)
+Lemma direct_never_deleted_p : forall s p, is_abs p = true -> deletes s p = false /\ poison s p = false.
+Proof. intros s p H. unfold poison, deletes. rewrite H. simpl. rewrite andb_false_r. split; reflexivity. Qed.
+
 Example good_ext_formatters : good_ext GEN_EXT_YAML = true /\ good_ext GEN_EXT_JSON = true /\ good_ext GEN_EXT_PICKLE = true.
 Proof. vm_compute. repeat split; reflexivity. Qed.
 
 Example demo_guarded2 : guarded2 st0 demo = true.
 Proof. vm_compute. reflexivity. Qed.
+
+Example demo_ops_ok : all_ops_ok demo = true /\ all_ops_ok [nested_ingest; nested_put; Prune [1%N; 2%N]] = true.
+Proof. vm_compute. split; reflexivity. Qed.
